@@ -1,4 +1,5 @@
 import json
+import os
 import tarfile
 import shutil
 import numpy as np
@@ -141,8 +142,22 @@ class DataDir(object):
             self._check_writeprotected(filename=filename, accessmode='w')
         return self._delete_files(filenames=filenames)
 
+    def _isprotected(self, filename):
+        # Compare resolved paths, so that the spelling of the name ('./x',
+        # Path('x'), 'a/../x', an absolute path) does not matter. Everything
+        # inside a protected directory is protected too.
+        basepath = os.path.realpath(self._path)
+        path = os.path.realpath(os.path.join(basepath, filename))
+        for protectedname in self._protectedpaths:
+            protectedpath = os.path.realpath(os.path.join(basepath,
+                                                          protectedname))
+            if path == protectedpath or \
+                    path.startswith(protectedpath + os.sep):
+                return True
+        return False
+
     def _check_writeprotected(self, filename, accessmode):
-        if accessmode != 'r' and filename in self._protectedpaths:
+        if accessmode != 'r' and self._isprotected(filename):
             raise OSError(f'Cannot modify protected file "{filename}"')
 
     # FIXME overwrite parameter?
